@@ -40,6 +40,13 @@ def op2_shards(bases, modes, op1, op2, which, fixed_range=None, per=CASES_PER_QU
                     out.append({0: b, 1: md, 2: op1, 3: ch, 4: op2, 5: fx, 6: which})
     return out
 
+def _with(shards, extra):
+    """copy of the shard list with extra parameters set"""
+    out = []
+    for sh in shards:
+        d = dict(sh); d.update(extra); out.append(d)
+    return out
+
 # per-property job lists live in spec_<id>.py files (exec'd here so they share the helpers above)
 import glob as _glob, os as _os
 for _f in sorted(_glob.glob(_os.path.join(_os.path.dirname(_os.path.abspath(__file__)), "spec_C*.py"))):
